@@ -153,8 +153,8 @@ Definition set_span_merge_law (x y z t : Z) (ret : bool) (pre post : gridT) : bo
          else ca_cov a (fst c'))
       else cell_eqb c' c).
 (* the law of del_span((x,y)): when the cell carries both attributes (integers nc, nr) the stored cells of the
-   area nc x nr lose the covered tag, the first cell loses the attributes, content and style stay, and nothing
-   changes outside; otherwise the call answers false and nothing changes *)
+   area nc x nr lose the covered tag, the first cell loses the attributes (its own tag is not touched), content and
+   style stay, and nothing changes outside; otherwise the call answers false and nothing changes *)
 Definition del_span_law (x y : Z) (ret : bool) (pre post : gridT) : bool :=
   let c0 := gcell x y pre in
   match ca_cs a (fst c0), ca_rs a (fst c0) with
@@ -164,8 +164,9 @@ Definition del_span_law (x y : Z) (ret : bool) (pre post : gridT) : bool :=
       window x y z t pre post (fun i j =>
         let c := gcell i j pre in let c' := gcell i j post in
         if in_area x y z t i j && (j <? gheight pre) && (i <? Z.of_nat (length (g_row j pre))) then
-          (ca_base a (fst c') =? ca_base a (fst c)) && (snd c' =? snd c) && negb (ca_cov a (fst c')) &&
-          (if (i =? x) && (j =? y) then negb (ca_span a (fst c')) else true)
+          (ca_base a (fst c') =? ca_base a (fst c)) && (snd c' =? snd c) &&
+          (if (i =? x) && (j =? y) then negb (ca_span a (fst c')) && Bool.eqb (ca_cov a (fst c')) (ca_cov a (fst c))
+           else negb (ca_cov a (fst c')))
         else cell_eqb c' c)
   | _, _ => negb ret && padded_eqb pre post
   end.
@@ -189,14 +190,40 @@ Definition alg_cell_ok (nc nr : Z) (v : Z) : bool :=
   (match ca_cs a vs, ca_rs a vs with Some c, Some r => (c =? nc) && (r =? nr) | _, _ => false end) &&
   (if ca_span a v then true else ca_rm_span a vs =? v).
 
+(* ---- transpose(coord) ---- *)
+(* in_block: the rows y .. y+len-1, in row j the columns x .. x + (length of that line) - 1 *)
+Definition in_block (x y : Z) (cells : list (list cell)) (i j : Z) : bool :=
+  (y <=? j) && (j <? y + Z.of_nat (length cells)) && (x <=? i) && (i <? x + Z.of_nat (length (nth (Z.to_nat (j - y)) cells []))).
+Definition g_transpose_area (x y z t : Z) (g : gridT) : gridT :=
+  let x := Z.min x (ncols g - 1) in let z := Z.min z (ncols g - 1) in
+  let y := Z.min y (gheight g - 1) in let t := Z.min t (gheight g - 1) in
+  let data := g_area_read x y z t g in
+  let w := z - x + 1 in let h := t - y + 1 in
+  let g1 := if w =? h then g
+            else g_step g (OSetLines false x y (repeat (repeat (1%nat, empty_cell) (Z.to_nat w)) (Z.to_nat h))) in
+  g_step g1 (OSetLines true x y (lines_of (zip_longest empty_cell data))).
+(* the law, for an area inside the table: the cell at (x+b, y+a) afterwards is the cell at (x+a, y+b) before, on the
+   block that the (possibly ragged) stored part of the area fills after transposition; what is left of a non-square
+   source rectangle is blanked; every other coordinate reads as before *)
+Definition transpose_area_law (x y z t : Z) (pre post : gridT) : bool :=
+  if (0 <=? x) && (x <=? z) && (z <? ncols pre) && (0 <=? y) && (y <=? t) && (t <? gheight pre) then
+    let T := zip_longest empty_cell (g_area_read x y z t pre) in
+    window x y (Z.max z (x + t - y)) (Z.max t (y + z - x)) pre post (fun i j =>
+      cell_eqb (gcell i j post)
+        (if in_block x y T i j then gcell (x + (j - y)) (y + (i - x)) pre
+         else if negb (z - x + 1 =? t - y + 1) && in_area x y z t i j then empty_cell
+         else gcell i j pre))
+  else true.
+
 (* ---- the grid meaning of one call of the alphabet (optimize_width has none: it depends on the run layout) ---- *)
 Definition gx_step (g : gridT) (o : xop) : option (gridT * bool) :=
   match o with
   | XTranspose => Some (g_transpose g, true)
   | XRstrip aggr => Some (g_rstrip aggr g, true)
-  | XSetSpan x y z t m mid => Some (g_set_span x y z t m mid g)
+  | XSetSpan x y z t m mid => Some (g_set_span x y z t m (if m then merge_mid a (g_area_cells x y z t g) else mid) g)
   | XDelSpan x y => g_del_span x y g
   | XCore o => Some (g_step g o, true)
-  | XTransposeArea _ _ _ _ | XOptimize => None
+  | XTransposeArea x y z t => Some (g_transpose_area x y z t g, true)
+  | XOptimize => None
   end.
 End Spec.
